@@ -78,17 +78,21 @@ var C09Trees = []string{
 	// struct-typed records whose (anonymous) types differ between threads
 	"rec.Name + ':' + rec.Qty + ':' + len(rec.Name)",
 	"[amount % 7, 12345678901234567890123 % amount, 1e40 % 1234567, amount % 0.3]",
+	// an error whose text depends on the thread's data; the thread reads the text only after yielding
+	"sel ? nul!.alpha : nul!.beta",
+	// a local counted up in the thread's OWN (empty) data map
+	"$seen = ($seen ?? 0) + 1",
 }
 
 // C09Variants: per-thread data variants for the data-dependent trees.
 var C09Variants = [][]interface{}{
 	{"pat", "^a", "zn", "UTC", "lay", "15:04", "x", 1.0, "vx", func(n float64) (float64, error) { return n * 2, nil },
-		"rate", func(n float64) (float64, error) { return n / 4, nil }, "amount", 1000.0, "rec", struct {
+		"sel", true, "rate", func(n float64) (float64, error) { return n / 4, nil }, "amount", 1000.0, "rec", struct {
 			Name string
 			Qty  int
 		}{"bolt", 3}},
 	{"pat", "c$", "zn", "Asia/Shanghai", "lay", "15:04", "x", 2.5, "vx", func(n interface{}) (string, error) { return "any", nil },
-		"rate", 0.25, "amount", 77.5, "rec", struct {
+		"sel", false, "rate", 0.25, "amount", 77.5, "rec", struct {
 			Qty  int
 			Name string
 		}{4, "nut"}},
@@ -142,9 +146,12 @@ func C09Body(name string) func() string {
 	}
 	evalOnce := func() string {
 		r := formula.NewRunner()
-		if variant >= 0 {
+		switch {
+		case variant == 3:
+			r.SetThis(map[string]interface{}{}) // the thread's own, empty data map
+		case variant >= 0:
 			r.SetThis(c08With(C09Variants[variant]...)())
-		} else {
+		default:
 			r.SetThis(c08Data())
 		}
 		o := safeResolve(r, bg, c09Shared[idx].Expression)
@@ -152,6 +159,8 @@ func C09Body(name string) func() string {
 		case o.panicked:
 			return "panic:" + o.panicMsg
 		case o.err != nil:
+			// the caller looks at the error a little later (other threads may have run meanwhile)
+			sched.Point("harness:before-reading-the-error")
 			return "error:" + o.err.Error()
 		}
 		return showExact(o.val)
@@ -244,6 +253,8 @@ func C09Scenarios(quick bool) [][]string {
 		sc = append(sc, []string{fmt.Sprintf("eval2:%d:0", t), fmt.Sprintf("eval2:%d:1", t)}, []string{fmt.Sprintf("eval2:%d:1", t), fmt.Sprintf("eval2:%d:2", t)}, []string{fmt.Sprintf("eval:%d:2", t), fmt.Sprintf("eval2:%d:0", t)})
 	}
 	sc = append(sc, []string{"eval:9:1", "eval:9:2", "eval:4"}, []string{"!cold", "eval:10:0", "eval:10:1"})
+	sc = append(sc, []string{"eval:12:0", "eval:12:1"}, []string{"eval2:12:1", "eval:12:0"}, []string{"eval:12:0", "eval:2", "eval:12:1"})
+	sc = append(sc, []string{"eval:13:3", "eval:13:3"}, []string{"eval2:13:3", "eval:13:3"}, []string{"eval:13:3", "eval:3"})
 	sc = append(sc, []string{"parse:3", "parse:4"}, []string{"parse:3", "bad:3"}, []string{"bad:3", "bad:4"}, []string{"eval:6:0", "parse:4"})
 	// cold start: the shared trees are parsed anew before every execution, so that the very first
 	// evaluations of a tree are the concurrent ones (lazily filled per-node state is cold)
